@@ -42,10 +42,10 @@ Proof.
   - assert (Cn : C n) by (apply (HC (n, merge)); now left).
     assert (HC' : forall im, In im rest -> C (fst im)) by (intros im Him; apply HC; now right).
     rewrite !imports_go_cons. apply rel_imps_get; [exact Cn|]. intros [i|].
-    + destruct (is_evaluating i); [apply rel_err|]; now apply IH.
+    + destruct (is_evaluating i); [apply rel_err; now apply IH|]. destruct (is_value i); now apply IH.
     + apply rel_call; [exact HF1|exact HF2|]. apply rel_emit; [constructor|].
       rewrite <- (HEn n Cn). destruct (alookup n (w_envs W1)) as [[| |d']|] eqn:El;
-        try (apply rel_err; now apply IH).
+        try (apply rel_err; apply rel_imps_set; [exact Cn|]; now apply IH).
       apply rel_bind_eq.
       * apply HEnv; [exact Cn|exact (HCl n d' Cn El)|exact (HNc n d' Cn El)].
       * intros v. apply rel_imps_set; [exact Cn|]. now apply IH.
